@@ -40,6 +40,17 @@ theorem source_strips_bom : Generated.Encoding.sourceStripsBom = true := by deci
 /-- file name and uri are written with `%a` (F-C18-4 repaired) -/
 theorem names_written_ascii : Generated.Encoding.namesWrittenAscii = true := by decide
 
+/-- `write_toplevel` writes the magic comment first, before the `from __future__ import` line -/
+theorem magic_comment_first : Generated.Encoding.magicCommentFirst = true := by decide
+
+/-- `Lexer.parse` decodes before it runs the preprocessors, and skips the coding comment after them -/
+theorem decode_precedes_preprocessors :
+    Generated.Encoding.decodeBeforePreprocessors = true ∧ Generated.Encoding.skipAfterPreprocessors = true := by decide
+
+/-- the `from __future__ import` line is ASCII apart from the names it lists -/
+theorem future_format_ascii :
+    isAsciiText Generated.Encoding.futurePrefix = true ∧ isAsciiText Generated.Encoding.futureSep = true := by decide
+
 /-! ### names -/
 
 theorem IsCodecName.no_nl {n : Name} (h : IsCodecName n) : '\n' ∉ n := fun hm => by
@@ -302,24 +313,50 @@ theorem Piece.render_chars (np : Char → Bool) (p : Piece) (hw : p.wellFormed =
     simp only [Piece.render, names_written_ascii, if_true] at hm
     exact pyAscii_chars s ch hm
 
-theorem moduleText_chars (np : Char → Bool) (n : Name) (hn : IsCodecName n) (body : List Piece)
-    (hw : ∀ p ∈ body, p.wellFormed = true) :
-    ∀ ch ∈ moduleText np (some n) true body, isAsciiChar ch = true ∨ ∃ p ∈ body, ch ∈ p.payload := by
+theorem joinNames_ascii (sep : Text) (hs : isAsciiText sep = true) (l : List Name)
+    (hl : ∀ n ∈ l, isAsciiText n = true) : isAsciiText (joinNames sep l) = true := by
+  induction l with
+  | nil => rfl
+  | cons a l ih =>
+    cases l with
+    | nil => simpa [joinNames] using hl a (by simp)
+    | cons b r =>
+      have h1 := hl a (by simp)
+      have h2 := ih (fun n hn => hl n (by simp [hn]))
+      simp only [joinNames, isAsciiText_append, h1, hs, Bool.and_true, Bool.true_and]
+      exact h2
+
+theorem futureLine_ascii (future : List Name) (hf : ∀ n ∈ future, isAsciiText n = true) :
+    isAsciiText (futureLine future) = true := by
+  cases future with
+  | nil => rfl
+  | cons a l =>
+    simp only [futureLine, isAsciiText_append, future_format_ascii.1,
+      joinNames_ascii _ future_format_ascii.2 (a :: l) hf, Bool.true_and]
+    decide
+
+theorem moduleText_magic (np : Char → Bool) (n : Name) (hn : IsCodecName n) (future : List Name) (body : List Piece) :
+    moduleText np (some n) true future body =
+      (magicLine n ++ ['\n']) ++ (futureLine future ++ body.flatMap (Piece.render np)) := by
   obtain ⟨c, cs, rfl⟩ := List.exists_cons_of_ne_nil hn.1
+  simp [moduleText, magic_comment_first]
+
+theorem moduleText_chars (np : Char → Bool) (n : Name) (hn : IsCodecName n) (future : List Name)
+    (hf : ∀ m ∈ future, isAsciiText m = true) (body : List Piece)
+    (hw : ∀ p ∈ body, p.wellFormed = true) :
+    ∀ ch ∈ moduleText np (some n) true future body, isAsciiChar ch = true ∨ ∃ p ∈ body, ch ∈ p.payload := by
   intro ch hm
-  simp only [moduleText, List.mem_append, List.mem_flatMap] at hm
-  rcases hm with hm | ⟨p, hp, hch⟩
-  · left
-    have := magicLine_ascii _ hn
-    simp only [isAsciiText, List.all_eq_true] at this
-    exact this ch (by simpa using hm)
+  rw [moduleText_magic np n hn] at hm
+  simp only [List.mem_append, List.mem_flatMap] at hm
+  have asc : ∀ l : Text, isAsciiText l = true → ch ∈ l → isAsciiChar ch = true := by
+    intro l hl h
+    simp only [isAsciiText, List.all_eq_true] at hl
+    exact hl ch h
+  rcases hm with hm | hm | ⟨p, hp, hch⟩
+  · exact Or.inl (asc _ (magicLine_ascii _ hn) (by simpa using hm))
+  · exact Or.inl (asc _ (futureLine_ascii future hf) hm)
   · rcases Piece.render_chars np p (hw p hp) ch hch with h | h
     · exact Or.inl h
     · exact Or.inr ⟨p, hp, h⟩
-
-theorem moduleText_magic (np : Char → Bool) (n : Name) (hn : IsCodecName n) (body : List Piece) :
-    moduleText np (some n) true body = (magicLine n ++ ['\n']) ++ body.flatMap (Piece.render np) := by
-  obtain ⟨c, cs, rfl⟩ := List.exists_cons_of_ne_nil hn.1
-  rfl
 
 end MakoModel.Encoding
